@@ -10,11 +10,24 @@ generations.
 """
 import itertools
 
-from checks.assign_common import (AssignorHang, StubCluster, enc_output, enc_parts, load_assignors,
-                                  mname, small_space, tname, canon)
+from checks.assign_common import (ORACLE_LOG, AssignorHang, StubCluster, enc_output, enc_parts,
+                                  install_oracle_recorder, load_assignors, mname, small_space, sticky_line,
+                                  tname, canon)
+
+
+PORT_LINES = []
 
 
 def sticky_round(A, parts, members, prev, generation, limit_s=3.0):
+    """runs the real assignor and queues the same input for the Lean port (T-diff)"""
+    ORACLE_LOG.clear()
+    out = _sticky_round(A, parts, members, prev, generation, limit_s)
+    PORT_LINES.append((sticky_line(parts, members, None if prev is None else [(m, prev[m]) for m, _ in members if m in prev]),
+                       enc_output(out), {"parts": parts, "members": members, "prev": prev}))
+    return out
+
+
+def _sticky_round(A, parts, members, prev, generation, limit_s=3.0):
     """members: [(m, subs)]; prev: {m: [(topic:int, [p...])]} or None. Returns canonical output."""
     import signal
     from checks.assign_common import _alarm
@@ -46,8 +59,9 @@ def identical_subs(members):
 def run(ctx):
     ctx.coverage["trusted_base"] = [
         "Lean 4.33.0 kernel; axioms propext, Classical.choice, Quot.sound only",
-        "PARTIAL: StickyAssignmentExecutor is not modelled; the stickiness statements (Lean, with soundness lemmas) "
-        "are evaluated on the library's outputs for every explored pair of rounds",
+        "PARTIAL: StickyAssignmentExecutor is ported to Lean (Model/StickyAlg.lean) and tied by T-diff on every round, but "
+        "no theorem about the port's stickiness for all inputs is proved; the stickiness statements (Lean, with soundness "
+        "lemmas) are evaluated on the library's outputs for every explored pair of rounds",
         "harness/checks/c15.py, assign_common.py (stub ClusterMetadata, zero-padded names), line protocol driver",
     ]
     ctx.assumptions += ["clauses (b) and (c) are evaluated only where all members subscribe to the same topics, as the property states",
@@ -61,6 +75,8 @@ def run(ctx):
     logging.disable(logging.CRITICAL)
     proved = ctx.prove(drivers=["akdriver"])
     A = load_assignors(ctx.repo)
+    install_oracle_recorder(A)
+    PORT_LINES.clear()
     rng = ctx.rng("gen")
     firsts = []
     if ctx.replay_cases is not None:
@@ -167,6 +183,15 @@ def run(ctx):
         except Exception as e:  # noqa
             ctx.violation(f"sticky-raises:{type(e).__name__}", f"sticky assignor raised {e!r} in a chain", {"cases": [{"parts": parts, "members": members}]})
     res = ctx.driver("akdriver", lines) if lines else []
+    # T-diff of every round with the Lean port of the algorithm
+    pres = ctx.driver("akdriver", [l for l, _, _ in PORT_LINES]) if PORT_LINES else []
+    pmis = [i for i in range(len(pres)) if pres[i] != PORT_LINES[i][1]]
+    ctx.coverage["port_rounds_compared"] = len(pres)
+    ctx.coverage["port_rounds_with_recorded_choice"] = sum(1 for l, _, _ in PORT_LINES if not l.endswith(" -"))
+    if pmis:
+        i = pmis[0]
+        ctx.broken.append({"kind": "correspondence", "tie": "T-diff sticky port (Model/StickyAlg.lean) vs StickyPartitionAssignor.assign",
+                           "mismatches": len(pmis), "first": {"op": PORT_LINES[i][0][:400], "impl": PORT_LINES[i][1][:300], "model": pres[i][:300]}})
     ctx.coverage["evaluations"] = len(lines)
     ctx.coverage["traces_validated_against_impl"] = len(lines)
     ctx.coverage["rule"] = ("first rounds: slice (quick) / all (thorough) of ≤4 members × ≤3 topics × 0..4 partitions × every "
